@@ -53,7 +53,7 @@ def parsePend : String → PendObs
 def b01 (b : Bool) : String := if b then "1" else "0"
 
 def showObs (o : Obs) : String :=
-  s!"connect={if o.connectOk then "ok" else "err"} res={o.res.text} eb={o.eb} death={o.death.text} term={o.term.text} gone={b01 o.gone} leak={b01 o.leak} second={o.second.text} pend={o.pend.text}"
+  s!"connect={if o.connectOk then "ok" else "err"} res={o.res.text} eb={o.eb} death={o.death.text} term={o.term.text} eof={b01 o.eofSeen} gone={b01 o.gone} leak={b01 o.leak} second={o.second.text} pend={o.pend.text}"
 
 def parseObs (t : List String) : Obs :=
   { connectOk := kvOf t "connect" == "ok"
@@ -61,6 +61,7 @@ def parseObs (t : List String) : Obs :=
     eb := (kvOf t "eb").toNat?.getD 0
     death := parseDeath (kvOf t "death")
     term := parseTermObs (kvOf t "term")
+    eofSeen := kvOf t "eof" == "1"
     gone := kvOf t "gone" == "1"
     leak := kvOf t "leak" == "1"
     second := parseSecond (kvOf t "second")
@@ -80,6 +81,7 @@ def Clause.text : Clause → String
   | .secondHang => "C05: a second Close did not return"
   | .secondDiffers => "C05: a second Close of the connection returned a different result than the first"
   | .pendingHang => "C05: a call that was pending when Close was called never returned"
+  | .termWithoutEof => "C05: the child was sent SIGTERM without its stdin having been closed first (it reports the SIGTERM but no EOF before it)"
 
 def SrvRet.text : SrvRet → String
   | .nil => "nil" | .canceled => "canceled" | .err => "err" | .hang => "hang"
